@@ -47,6 +47,9 @@ func (ps *PropSpec) isVerdict(class string) bool {
 	return false
 }
 
+// DebugHook is a developer aid (see debug_test.go).
+var DebugHook func(w *World, i int, st *Step, v *Violation)
+
 var slabChoices = []uint32{256, 256, 256, 257, 300, 300, 384, 512, 512, 1000, 1024, 1024, 1536, 2048, 4096, 8192, 32768}
 
 func pickSlab(r *Rng, tier string) uint32 {
@@ -103,6 +106,9 @@ func stdLoop(ps *PropSpec, w *World, tr *Trace, gen *Gen, check func(final bool)
 		v := w.execGuarded(&st)
 		if v == nil && w.AfterStep != nil {
 			v = w.AfterStep(w, &st)
+		}
+		if DebugHook != nil {
+			DebugHook(w, i, &st, v)
 		}
 		if v == nil && check != nil && w.Cfg.OracleStride > 0 && (i+1)%w.Cfg.OracleStride == 0 {
 			v = check(false)
